@@ -114,6 +114,8 @@ def shapes_of(fn):
             comps.add(U(n))
     return {'cmp': sorted(cmp_), 'tests': sorted(tests), 'aug': sorted(augs), 'subs': sorted(subs), 'calls': sorted(calls),
             'else': els, 'stmts': stmts, 'for': fors, 'comps': sorted(comps),
+            'params': [a.arg for a in fn.args.args] if isinstance(fn, (ast.FunctionDef, ast.AsyncFunctionDef)) else [],
+            'ndefaults': len(fn.args.defaults) if isinstance(fn, (ast.FunctionDef, ast.AsyncFunctionDef)) else 0,
             'breaks': sum(1 for n in ast.walk(fn) if isinstance(n, ast.Break)),
             'continues': sum(1 for n in ast.walk(fn) if isinstance(n, ast.Continue))}
 
@@ -1584,3 +1586,136 @@ def renumber(module):
                     h._orig_lineno = h.lineno
                     h.lineno = last
     return changed
+
+
+# ---------------------------------------------------------------------------------------------------------------
+def normalise_signatures(repo):
+    """Step S33 (whole repository): a function of the reference tree whose parameter list was PERMUTED, or whose parameters were
+    RENAMED position by position, gets its reference parameter list back, and every call site is re-bound accordingly
+    (positional arguments re-ordered, keyword names mapped).  Functions whose arity changed are left alone.
+    Returns {qualified name: description}."""
+    ref = refshapes()
+    done = {}
+    # simple name -> list of qualified names, to make sure a call is not attributed to a namesake
+    by_name = {}
+    for rel, m in repo.modules.items():
+        for lname in m.funcs:
+            by_name.setdefault(lname.rpartition('.')[2], []).append(rel + '::' + lname)
+    for rel, m in list(repo.modules.items()):
+        for lname, fn in list(m.funcs.items()):
+            q = rel + '::' + lname
+            r = ref.get(q)
+            if not r or 'params' not in r or '<locals>' in lname:
+                continue
+            if fn.args.vararg or fn.args.kwarg or fn.args.kwonlyargs or fn.args.posonlyargs:
+                continue
+            cur = [a.arg for a in fn.args.args]
+            want = list(r['params'])
+            if cur == want or len(cur) != len(want):
+                continue
+            has_self = bool(cur) and cur[0] in ('self', 'cls') and want and want[0] == cur[0]
+            ccur, cwant = (cur[1:], want[1:]) if has_self else (cur, want)
+            ndef = len(fn.args.defaults)
+            rename = {}
+            body_names = {n.id for n in ast.walk(fn) if isinstance(n, ast.Name)}
+            fresh_p = [c for c in ccur if c not in cwant]
+            gone_p = [w for w in cwant if w not in ccur]
+            if len(fresh_p) != len(gone_p):
+                continue
+            if fresh_p:
+                # renamed parameters: new names map onto the disappeared reference names - unambiguous for one rename, positional
+                # (same index) for several
+                if len(fresh_p) == 1:
+                    rename = {fresh_p[0]: gone_p[0]}
+                elif all(ccur.index(c) == cwant.index(w) for c, w in zip(fresh_p, gone_p)):
+                    rename = dict(zip(fresh_p, gone_p))
+                else:
+                    continue
+                if any(w in body_names for w in rename.values()):
+                    continue
+            renamed_cur = [rename.get(c, c) for c in ccur]
+            if sorted(renamed_cur) != sorted(cwant):
+                continue
+            kind = 'renamed' if renamed_cur == cwant else ('permuted' if not rename else 'renamed+permuted')
+            order = [renamed_cur.index(w) for w in cwant]          # position in cur of each ref param
+            # defaults: the reference had `ref_ndef` trailing defaults; a parameter that has a default now but must not have one in
+            # the reference order loses it only if every call site passes it (checked below)
+            cur_defaults = dict(zip(ccur[len(ccur) - ndef:], fn.args.defaults)) if ndef else {}
+            ref_ndef = r.get('ndefaults', ndef)
+            want_defaulted = cwant[len(cwant) - ref_ndef:] if ref_ndef else []
+            inv0 = {v: k for k, v in rename.items()}
+            if any(inv0.get(w, w) not in cur_defaults for w in want_defaulted):
+                continue
+            must_be_passed = [c for c in cur_defaults if rename.get(c, c) not in want_defaulted]
+            name = lname.rpartition('.')[2]
+            if len(by_name.get(name, [])) != 1:
+                # a namesake exists elsewhere: only calls inside the defining module are re-bound, and only if unique there
+                if sum(1 for x in by_name[name] if x.startswith(rel + '::')) != 1:
+                    continue
+                mods = [rel]
+            else:
+                mods = list(repo.modules)
+            # ---- call sites
+            ok = True
+            plans = []
+            for r2 in mods:
+                m2 = repo.modules[r2]
+                for c in [x for x in ast.walk(m2.tree) if isinstance(x, ast.Call)]:
+                    f = c.func
+                    nm = f.attr if isinstance(f, ast.Attribute) else (f.id if isinstance(f, ast.Name) else None)
+                    if nm != name:
+                        continue
+                    if any(isinstance(a, ast.Starred) for a in c.args) or any(k.arg is None for k in c.keywords) or len(c.args) > len(ccur):
+                        ok = False
+                        break
+                    bound = {}
+                    for i_, a in enumerate(c.args):
+                        bound[ccur[i_]] = (a, True)
+                    for k in c.keywords:
+                        if k.arg not in ccur or k.arg in bound:
+                            ok = False
+                            break
+                        bound[k.arg] = (k.value, False)
+                    if not ok:
+                        break
+                    plans.append((c, bound))
+                if not ok:
+                    break
+            if not ok:
+                continue
+            if any(c_ not in bound_ for c_ in must_be_passed for _c, bound_ in plans):
+                continue
+            inv = {v: k for k, v in rename.items()}
+            for c, bound in plans:
+                new_args, new_kw = [], []
+                positional = True
+                for w in cwant:
+                    cname = inv.get(w, w)
+                    if cname not in bound:
+                        positional = False
+                        continue
+                    expr, was_pos = bound[cname]
+                    if positional and was_pos:
+                        new_args.append(expr)
+                    else:
+                        positional = False
+                        new_kw.append(ast.keyword(arg=w, value=expr))
+                c.args = new_args
+                c.keywords = new_kw
+            # ---- the definition
+            args = fn.args.args
+            self_arg = args[:1] if has_self else []
+            rest = args[1:] if has_self else args
+            new_rest = [rest[i_] for i_ in order]
+            for a in new_rest:
+                a.arg = rename.get(a.arg, a.arg)
+            fn.args.defaults = [cur_defaults[inv0.get(w, w)] for w in want_defaulted]
+            fn.args.args = self_arg + new_rest
+            if rename:
+                fn.body = [_Subst({c_: w_ for c_, w_ in rename.items()}).visit(st) for st in fn.body]
+            done[q] = '%s: %s -> %s' % (kind, ccur, cwant)
+    if done:
+        for m in repo.modules.values():
+            ast.fix_missing_locations(m.tree)
+            m.reindex()
+    return done
